@@ -57,7 +57,12 @@ def model(ctx):
 
 
 def scripts(ctx):
-    r, steps = ctx.tlc_dump_steps("ConnPool", "ConnPool_mc_quick.cfg" if ctx.tier == "quick" else "ConnPool_mc_thorough.cfg",
+    # the script model follows the tree: once the stale-handle finding is recorded as fixed (onerror by identity), the
+    # expected replies come from the ByIdentity = TRUE configuration and P4 damage is a VIOLATION again
+    fixed = (ctx._findings.get("CONNPOOL:" + STALE) or {}).get("status") == "fixed"
+    ctx.extra["script_model_onerror"] = "by identity (repaired tree)" if fixed else "by address (pinned tree)"
+    suffix = "_id.cfg" if fixed else ".cfg"
+    r, steps = ctx.tlc_dump_steps("ConnPool", ("ConnPool_mc_quick" if ctx.tier == "quick" else "ConnPool_mc_thorough") + suffix,
                                   timeout=300 if ctx.tier == "quick" else 2400)
     ctx.extra["script_model"] = {"distinct": r.distinct, "wall_s": round(r.wall, 1)}
     seen, out = set(), []
